@@ -1071,6 +1071,17 @@ theorem runBfx_eq_scan {map0 : IMap} (hn : KeysNodup map0) (timeout expected : N
             rw [hs]
             rfl
 
+/-- `validateBfx` as a scan over the history, with the concrete map as a function of the history. -/
+theorem validateBfx_eq_scan {map0 : IMap} (hn : KeysNodup map0) (frames : List (Frame BfxEvent)) :
+    validateBfx map0 frames
+      = scanWith (fun pre => hitCount map0 pre == map0.length && (snapshotsOf map0 pre).length == map0.length) (fun pre rest => (mapAfter map0 pre, snapshotsOf map0 pre, rest))
+          (fatal BfxEvent.validate (subscriptionTimeoutMs .bitfinex) silence) [] frames := by
+  have := runBfx_eq_scan hn (subscriptionTimeoutMs .bitfinex) map0.length frames []
+  have h0 : bfxSummary map0 [] = { map := map0 } := by
+    simp [bfxSummary, mapAfter, hitCount, chanIdOf_nil, snapshotsOf, others, silence]
+  rw [h0] at this
+  simpa [validateBfx, expectedResponses] using this
+
 /-! ### The concrete map is the re-keyed original map -/
 
 theorem filterMap_sublist_of_le {α β : Type} (g g' : α → Option β) (l : List α)
